@@ -2403,3 +2403,7 @@ mod tests {
         }
     }
 }
+
+#[cfg(all(test, pendulum_project_ntpd_rs_verif))]
+#[path = "/verif/harness/ntp_proto/probe_packet.rs"]
+pub(crate) mod verif_probe;
